@@ -4,20 +4,25 @@
 `ModelServer.UpdateFanSpeed` → `Model.UpdateFanSpeed`: `validateUpdate`, the relative interceptor
 (adds the old percentage and index to the written ones), the field-mask merge (the server passes the
 request's update_mask since the fix) and `DeriveValues` (preset > index > percentage).
-Percentages are rationals (the harness uses quarter steps, exact in float32); the relative index sum
-wraps as int32.
+
+Percentages are values of an arbitrary type `α` with decidable equality, and the relative update adds
+them with an arbitrary function `add : α → α → α`: the code only ever compares percentages for equality
+and adds them, so every theorem holds for float32 with its rounding addition as well as for exact
+rationals (the one thing excluded is NaN, whose `==` is not reflexive).  The driver instantiates
+`α := Rat`, `add := (· + ·)`.  The relative index sum saturates at the int32 limits.
 -/
 namespace ScVerif.C20.FanSpeed
 
-def wrap32 (x : Int) : Int := (x + 2147483648) % 4294967296 - 2147483648
+/-- the relative index sum is computed in 64 bits and kept inside int32 (since the fix; it wrapped) -/
+def sat32 (x : Int) : Int := if x > 2147483647 then 2147483647 else if x < -2147483648 then -2147483648 else x
 
-structure Preset where
+structure Preset (α : Type) where
   name : String
-  pct : Rat
+  pct : α
   deriving DecidableEq
 
-structure Fan where
-  pct : Rat
+structure Fan (α : Type) where
+  pct : α
   preset : String
   index : Int
   direction : Int
@@ -27,8 +32,10 @@ inductive Field where
   | pct | preset | index | direction
   deriving DecidableEq
 
+variable {α : Type} [DecidableEq α]
+
 /-- `FieldUpdater.Merge` -/
-def merge (mask : Option (List Field)) (cur src : Fan) : Fan :=
+def merge (mask : Option (List Field)) (cur src : Fan α) : Fan α :=
   match mask with
   | none => src
   | some fs =>
@@ -38,12 +45,12 @@ def merge (mask : Option (List Field)) (cur src : Fan) : Fan :=
       direction := if Field.direction ∈ fs then src.direction else cur.direction }
 
 /-- first index whose preset satisfies `p` (the `for i, preset := range m.presets … break` loops) -/
-def findIdx (p : Preset → Bool) : List Preset → Option Nat
+def findIdx (p : Preset α → Bool) : List (Preset α) → Option Nat
   | [] => none
   | x :: xs => if p x then some 0 else (findIdx p xs).map (· + 1)
 
 /-- `DeriveValues`; `none` is the index-out-of-range panic of the index branch on an empty preset list. -/
-def deriveValues (ps : List Preset) (old new : Fan) : Option Fan :=
+def deriveValues (ps : List (Preset α)) (old new : Fan α) : Option (Fan α) :=
   if old.preset ≠ new.preset then
     match findIdx (fun p => p.name == new.preset) ps with
     | some i => some { new with index := i, pct := (ps[i]?.map (·.pct)).getD new.pct }
@@ -60,34 +67,35 @@ def deriveValues (ps : List Preset) (old new : Fan) : Option Fan :=
     | none => some { new with index := -1, preset := "" }
   else some new
 
-inductive Outcome where
-  | ok (v : Fan)
+inductive Outcome (α : Type) where
+  | ok (v : Fan α)
   | invalidArgument
   | panic
   deriving DecidableEq
 
-structure Request where
-  src : Fan
+structure Request (α : Type) where
+  src : Fan α
   relative : Bool
   mask : Option (List Field)
 
 /-- the value handed to `DeriveValues`: relative interceptor, then the masked merge -/
-def merged (old : Fan) (r : Request) : Fan :=
-  let src := if r.relative then { r.src with pct := r.src.pct + old.pct, index := wrap32 (r.src.index + old.index) } else r.src
+def merged (add : α → α → α) (old : Fan α) (r : Request α) : Fan α :=
+  let src := if r.relative then { r.src with pct := add r.src.pct old.pct, index := sat32 (r.src.index + old.index) } else r.src
   merge r.mask old src
 
-def update (ps : List Preset) (old : Fan) (r : Request) : Outcome :=
+def update (add : α → α → α) (ps : List (Preset α)) (old : Fan α) (r : Request α) : Outcome α :=
   if r.src.preset ≠ "" ∧ (findIdx (fun p => p.name == r.src.preset) ps).isNone then .invalidArgument
-  else match deriveValues ps old (merged old r) with
+  else match deriveValues ps old (merged add old r) with
     | some v => .ok v
     | none => .panic
 
 /-- state after a request (unchanged on error) -/
-def step (ps : List Preset) (old : Fan) (r : Request) : Fan :=
-  match update ps old r with
+def step (add : α → α → α) (ps : List (Preset α)) (old : Fan α) (r : Request α) : Fan α :=
+  match update add ps old r with
   | .ok v => v
   | _ => old
 
-def run (ps : List Preset) (s : Fan) (rs : List Request) : Fan := rs.foldl (step ps) s
+def run (add : α → α → α) (ps : List (Preset α)) (s : Fan α) (rs : List (Request α)) : Fan α :=
+  rs.foldl (step add ps) s
 
 end ScVerif.C20.FanSpeed
